@@ -1,5 +1,7 @@
 """C05 Incoming events: one handler invocation, one matching ACK to the
 sender only."""
+import copy
+
 from hypothesis import strategies as st
 
 from .. import strategies as S
@@ -18,7 +20,8 @@ RULE = ('Generated sequences of EVENT/BINARY_EVENT packets (ids None, 0, '
         'catch-all and a class-based namespace (optionally also a function '
         'handler on the catch-all namespace for an event nobody sends); '
         'a sender disconnecting right behind its events, before their '
-        'background handlers have run; '
+        'background handlers have run; handlers that answer with the very '
+        'object (a cached list / dict) they returned for an earlier event; '
         'async_handlers on/off (on: '
         'background tasks collected and run in a generated order); both '
         'servers. Oracle: exactly one invocation (right target, sender sid, '
@@ -58,6 +61,9 @@ def strategy(tier):
         # sent as a BINARY_EVENT that announces zero attachments (legal on
         # the wire, the reference parser delivers it at once)
         'bin0': st.sampled_from([False, False, False, True]),
+        # the handler answers with the very object (a cached list / dict of
+        # the application) that it returned for an earlier event
+        'reuse': st.sampled_from([False, False, True]),
         'stray_ns': st.one_of(st.none(), st.none(), st.integers(0, 3))})
     op = st.one_of(
         st.fixed_dictionaries({'op': st.just('burst'),
@@ -213,6 +219,7 @@ def _run(case, w):
     labels = {'aio': aio, 'async_handlers': case['async_handlers'],
               'nontrivial': False}
     tag = 0
+    cached = []     # [the application's object, its value when first seen]
     for step, op in enumerate(case['ops']):
         k = op['op']
         if k == 'connect':
@@ -348,6 +355,15 @@ def _run(case, w):
                     ns, connected = ns2, False
             tag += 1
             rets[tag] = e['ret']
+            want_ret = copy.deepcopy(e['ret'])
+            if e.get('reuse') and cached:
+                rets[tag] = cached[0]
+                want_ret = copy.deepcopy(cached[1])
+                if e['id'] is not None and connected:
+                    labels['cached_object_returned_again'] = True
+            elif isinstance(e['ret'], (list, dict)) and e['ret'] and \
+                    not cached:
+                cached[:] = [e['ret'], copy.deepcopy(e['ret'])]
             args = [{'__tag': tag}] + list(e['args'])
             fr = wire.frames(wire.EVENT, ns, e['id'], [e['name']] + args)
             if e.get('bin0') and len(fr) == 1 and isinstance(fr[0], str) \
@@ -358,7 +374,7 @@ def _run(case, w):
             sid = c['sid'] if connected else None
             expected.append({'tag': tag, 't': c['t'], 'ns': ns, 'sid': sid,
                              'name': e['name'], 'id': e['id'], 'args': args,
-                             'ret': e['ret'], 'connected': connected,
+                             'ret': want_ret, 'connected': connected,
                              'nframes': len(fr)})
         # interleave the transports' frame streams
         streams = {t: [(tg, f, i == len(fr) - 1) for tg, fr in lst
